@@ -80,6 +80,14 @@ C = [
   [("pkg/core/blockchain.go", "\t\tmode |= mpt.ModeLatest", "\t\tmode |= mpt.ModeGCFlag")]),
  ("C03-historic-window-underflow", "C03", "unsigned-window", "the retained-window test subtracts unsigned heights without testing their order (the repaired defect)",
   [("pkg/core/blockchain.go", "if h, mtb := bc.BlockHeight(), bc.GetMaxTraceableBlocks(); h > mtb && b.Index < h-mtb {", "if b.Index < bc.BlockHeight()-bc.GetMaxTraceableBlocks() {")]),
+ ("C17-varuint-border-exclusive", "C17", "varint-agreement", "PutVarUint compares the 16- and 32-bit borders exclusively (the repaired defect)",
+  [("pkg/io/binaryWriter.go", "\tif val <= 0xFFFF {", "\tif val < 0xFFFF {"), ("pkg/io/binaryWriter.go", "\tif val <= 0xFFFFFFFF {", "\tif val < 0xFFFFFFFF {")]),
+ ("C17-estimator-border-exclusive", "C17", "varint-agreement", "the length-prefix estimator counts 0xFFFF as a 5-byte prefix while the writer puts 3",
+  [("pkg/io/size.go", "\t} else if value <= 0xFFFF {", "\t} else if value < 0xFFFF {")]),
+ ("C17-stackitem-count-signed", "C17", "signed-count", "stack item element count converted to int and only compared from above (the repaired defect)",
+  [("pkg/vm/stackitem/serialization.go", "if size < 0 || size > r.limit {", "if size > r.limit {"), ("pkg/vm/stackitem/serialization.go", "if size < 0 || size > r.limit/2 {", "if size > r.limit/2 {")]),
+ ("C17-merkleblock-count-signed", "C17", "signed-count", "MerkleBlock transaction count converted to int before the limit test (the repaired defect)",
+  [("pkg/network/payload/merkleblock.go", "\tcount := br.ReadVarUint()\n\tif count > block.MaxTransactionsPerBlock {", "\ttxCount := int(br.ReadVarUint())\n\tif txCount > block.MaxTransactionsPerBlock {"), ("pkg/network/payload/merkleblock.go", "\ttxCount := int(count)\n", "")]),
 ]
 
 root = "/verif/controls"
